@@ -78,6 +78,11 @@ class Escape:
         self.calls_total = 0
         self._localcache = {}
         self._ba = {}
+        self._influence_mode = False
+        self._infl = {}
+        self.infl_attrs = {}
+        self._infl_returns = set()
+        self._infl_params = {}
         self.changed = False
 
     # ----------------------------------------------------------- typing aids
@@ -151,6 +156,23 @@ class Escape:
         return False
 
     def taint_of(self, f, recv):
+        """(tainted names, is_t) for raiser operands, and - cached in self._infl - the same with numeric sanitizers
+        switched off (values *influenced* by input: used for control dependence of explicit raises)."""
+        if not self._influence_mode:
+            self._influence_mode = True
+            saved = (self.tainted_attrs, self.tainted_returns, self.tainted_params, self.changed)
+            self.tainted_attrs, self.tainted_returns, self.tainted_params = self.infl_attrs, self._infl_returns, self._infl_params
+            try:
+                self._infl[(f.fq, recv.fq if recv else None)] = self._taint_of(f, recv)
+            finally:
+                self.infl_attrs, self._infl_returns, self._infl_params = self.tainted_attrs, self.tainted_returns, self.tainted_params
+                ch = self.changed
+                self.tainted_attrs, self.tainted_returns, self.tainted_params, self.changed = saved
+                self.changed = self.changed or ch
+                self._influence_mode = False
+        return self._taint_of(f, recv)
+
+    def _taint_of(self, f, recv):
         """Set of tainted local names / 'self.attr' strings in f (flow-insensitive fixpoint)."""
         tainted = set(self.tainted_params.get(f.fq, ()))
         for p in f.params()[0] + f.params()[1]:
@@ -200,7 +222,7 @@ class Escape:
                     for g, r in self.gens_of(f, recv, tgt):
                         if g.fq in self.tainted_returns:
                             return True
-                if name in SANITIZERS or name in self.trusted:
+                if name in self.trusted or (name in SANITIZERS and not self._influence_mode):
                     return False                     # numeric / boolean results cannot make a raiser of the table fire;
                                                      # trusted calls are declared trust boundaries (e.g. the WSGI app)
                 callees = self.ix.resolve_call(f, recv, e, types)
@@ -447,13 +469,19 @@ class Escape:
             while p is not None and p is not f.node:
                 if isinstance(p, (ast.If, ast.While)) and cur is not p.test and is_t_test(p.test):
                     return True
-                if isinstance(p, (ast.For,)) and is_t(p.iter):
+                if isinstance(p, (ast.For,)) and (is_t(p.iter) or is_t_test(p.iter)):
                     return True
                 cur, p = p, parent(p)
             return False
 
+        infl_names, is_infl = self._infl.get((f.fq, recv.fq if recv else None), (tainted, is_t))
+
         def is_t_test(test):
-            return any(is_t(n) for n in ast.walk(test) if isinstance(n, (ast.Name, ast.Attribute, ast.Call)))
+            self._influence_mode = True
+            try:
+                return any(is_infl(n) for n in ast.walk(test) if isinstance(n, (ast.Name, ast.Attribute, ast.Call)))
+            finally:
+                self._influence_mode = False
 
         any_taint = bool(tainted) or any(self._seed_attr(recv, a) for a in ("msg", "raw"))
 
@@ -669,6 +697,22 @@ class Escape:
                 if is_ba(arg) and pname not in bp:
                     bp.add(pname)
                     self.changed = True
+        infl = None
+        for key, val in self._infl.items():
+            if key[0] == f.fq:
+                infl = val[1]
+        if infl is not None:
+            ip = self._infl_params.setdefault(g.fq, set())
+            self._influence_mode = True
+            try:
+                pairs = [(names[i], a) for i, a in enumerate(call.args) if i < len(names) and not isinstance(a, ast.Starred)]
+                pairs += [(k.arg, k.value) for k in call.keywords if k.arg and k.arg in names + kwonly]
+                for pname, arg in pairs:
+                    if pname not in ip and infl(arg):
+                        ip.add(pname)
+                        self.changed = True
+            finally:
+                self._influence_mode = False
         tp = self.tainted_params.setdefault(g.fq, set())
         for i, a in enumerate(call.args):
             if isinstance(a, ast.Starred):
